@@ -432,7 +432,9 @@ macro_rules! make_resolve_const_function {
                     $fn_ident(lhs, consts_unsigned).wrapping_add($fn_ident(rhs, consts_unsigned))
                 }
                 ConstExprEnum::Sub(lhs, rhs) => {
-                    $fn_ident(lhs, consts_unsigned).wrapping_sub($fn_ident(rhs, consts_unsigned))
+                    // array sizes cannot be negative (and never wrap around to 2^64 - 1): the
+                    // join of two empty arrays has `0 + 0 - 1`, i.e. no elements
+                    $fn_ident(lhs, consts_unsigned).saturating_sub($fn_ident(rhs, consts_unsigned))
                 }
                 ConstExprEnum::ConstExprIdent(ident) => *consts_unsigned
                     .get(ident)
@@ -1782,7 +1784,7 @@ fn compile_bitonic_merge(
     }
     // Include the tag bit in the sorting of the merger
     circuit.push_bitonic_merger(join_ty_size + 1, true, &mut bitonic);
-    let mut joined = Vec::with_capacity(num_elems_a + num_elems_b - 1);
+    let mut joined = Vec::with_capacity((num_elems_a + num_elems_b).saturating_sub(1));
     for slice in bitonic.windows(2).skip(num_empty_elems) {
         let mut binding: Vec<GateIndex> = if mode.is_join_func() {
             // Insert a dummy false element at the first position,
